@@ -106,6 +106,16 @@ def ev_call(ex, n, st, spec, b):
                 return t_.n
             k_ = st.env.get("$tally_key", t_)
             return (t_ if name == "tally_id" else k_).arr[zint(E(n.args[0]))]
+        if name == "gcount":
+            return st.env.get("$" + n.args[0].value, z3.IntVal(0))
+        if name == "gs_len":
+            g_ = st.env.get("$" + n.args[0].value)
+            return g_.n if g_ is not None else z3.IntVal(0)
+        if name == "gs_at":
+            g_ = st.env.get("$" + n.args[0].value)
+            if g_ is None:
+                g_ = SeqV(z3.K(I, z3.IntVal(0)), z3.IntVal(0), None)
+            return g_.arr[zint(E(n.args[1]))]
         if name == "nprinted":
             return st.env.get("$nprinted", z3.IntVal(0))
         if name == "cg":
@@ -196,7 +206,29 @@ def _guarded(ex, node, st, spec, b, g):
         ex.cx.guards.pop()
 
 
-def call_value(ex, fv, args, kwargs, st, node, spec):
+def call_value(ex, fv, args, kwargs, st, node, spec, rebind_self=None):
+    if isinstance(fv, ObjV):
+        return _call_method(ex, fv, "__call__", args, kwargs, st, node, spec)[0]
+    if isinstance(fv, ChoiceV):
+        opts = [(g, v) for g, v in fv.options if ex.feasible(st, g)]
+        if not opts:
+            st.pc.append(z3.BoolVal(False))
+            return None
+        results = []
+        for g, v in opts:
+            sub = st.copy()
+            sub.decide(g)
+            r = call_value(ex, v, args, kwargs, sub, node, spec, rebind_self)
+            results.append((g, r, sub))
+        res = results[-1][1]
+        for g, r, sub in reversed(results[:-1]):
+            res = merge_val(g, r, res)
+        merged = ex.merge_states(st.mark(), [sub for _, _, sub in results])
+        st.env, st.pc, st.dec = merged.env, merged.pc, merged.dec
+        return res
+    if isinstance(fv, FuncV) and rebind_self is not None and fv.self_val is not None:
+        res, _ = ex.call_method(rebind_self, fv.name, args, kwargs, st, node, spec)
+        return res
     if isinstance(fv, ClsV):
         return construct(ex, fv.name, args, kwargs, st, node, spec)
     if isinstance(fv, FuncV):
@@ -290,11 +322,19 @@ def _call_method(ex, base, attr, args, kwargs, st, node, spec, after=None):
         return res, None
     if isinstance(base, ObjV):
         # field holding a callable (instance-level rebinding)
-        if attr in base.fields and isinstance(base.fields[attr], (FuncV, ClsV)):
+        if attr in base.fields and isinstance(base.fields[attr], (ObjV, Opt)) and w.find_method(base.cls, attr) is None:
+            # callable object stored in a field: obj.f(args) == obj.f.__call__(args)
+            inner = base.fields[attr]
+            if isinstance(inner, Opt):
+                inner = ex.need_not_none(inner, st, node, f".{attr}()")
+            res, new_inner = _call_method(ex, inner, "__call__", args, kwargs, st, node, spec)
+            return res, (base.with_field(attr, new_inner) if new_inner is not None else None)
+        if attr in base.fields and isinstance(base.fields[attr], (FuncV, ClsV, ChoiceV)):
             fv = base.fields[attr]
-            if isinstance(fv, FuncV) and fv.self_val is None and fv.extra is None and w.find_method(base.cls, fv.name):
+            if isinstance(fv, FuncV) and fv.extra is None and w.find_method(base.cls, fv.name):
+                # instance-level rebinding (self.f = self.g): call g on the *current* object
                 return _call_method(ex, base, fv.name, args, kwargs, st, node, spec)
-            return call_value(ex, fv, args, kwargs, st, node, spec), None
+            return call_value(ex, fv, args, kwargs, st, node, spec, rebind_self=base), None
         c0 = w.contract_for(f"{base.cls}.{attr}", ex.cx)
         if c0 is not None and getattr(c0, "covers_subclasses", False) and after is None:
             return apply_contract(ex, c0, base, args, kwargs, st, node, spec)
